@@ -335,4 +335,246 @@ Proof.
   apply Z.le_trans with (getk mn l p); [apply IHk; lia|now apply H].
 Qed.
 
+(* ---------- well-formed heaps and the specification of Push / Pop / Remove ---------- *)
+Definition ids_of (l : list entry) : list N := map e_id l.
+Definition hwf mn l : Prop := idx_ok l /\ NoDup (ids_of l) /\ heap_upto mn l (length l).
+
+Lemma ids_conts l : ids_of l = map (fun c => fst (fst c)) (conts l).
+Proof. unfold ids_of, conts. rewrite map_map. reflexivity. Qed.
+
+Lemma perm_ids l l' : Permutation (conts l) (conts l') -> Permutation (ids_of l) (ids_of l').
+Proof. intros H. rewrite !ids_conts. now apply Permutation_map. Qed.
+
+Lemma hwf_nil mn : hwf mn [].
+Proof.
+  repeat split.
+  - intros k e H. destruct k; discriminate.
+  - constructor.
+  - intros p c _ H. cbn in H. lia.
+Qed.
+
+Lemma ih_get_some l id e : ih_get l id = Some e -> In e l /\ e_id e = id.
+Proof. unfold ih_get. intros H. apply find_some in H as [H1 H2]. apply N.eqb_eq in H2. auto. Qed.
+
+Lemma ih_get_none l id : ih_get l id = None -> ~ In id (ids_of l).
+Proof.
+  unfold ih_get, ids_of. intros H Hin. apply in_map_iff in Hin as (e & He & Hin).
+  pose proof (find_none _ _ H e Hin) as Hn. cbn in Hn. apply N.eqb_neq in Hn. congruence.
+Qed.
+
+Lemma ih_has_false l id : ih_has l id = false -> ~ In id (ids_of l).
+Proof. unfold ih_has. destruct (ih_get l id) eqn:E; [discriminate|]. intros _. now apply ih_get_none. Qed.
+
+Lemma ih_has_true l id : ih_has l id = true <-> In id (ids_of l).
+Proof.
+  unfold ih_has. destruct (ih_get l id) eqn:E; split; intros H; try reflexivity; try discriminate.
+  - apply ih_get_some in E as [E1 E2]. subst id. unfold ids_of. now apply in_map.
+  - now apply ih_get_none in E.
+Qed.
+
+(* with unique ids, Get finds the entry wherever it is *)
+Lemma ih_get_nth l k e : NoDup (ids_of l) -> nth_error l k = Some e -> ih_get l (e_id e) = Some e.
+Proof.
+  unfold ih_get, ids_of. revert k. induction l as [|h t IH]; intros k Hnd Hk; [destruct k; discriminate|].
+  cbn [map] in Hnd. inversion Hnd as [|x xs Hnotin Hnd']; subst. cbn [find].
+  destruct k as [|k]; cbn [nth_error] in Hk.
+  - injection Hk as ->. now rewrite N.eqb_refl.
+  - destruct (N.eqb_spec (e_id h) (e_id e)) as [E|E].
+    + exfalso. apply Hnotin. rewrite E. apply in_map. eapply nth_error_In; eassumption.
+    + eapply IH; eassumption.
+Qed.
+
+Lemma getk_app1 mn l x k : k < length l -> getk mn (l ++ x) k = getk mn l k.
+Proof. intros H. unfold getk. now rewrite nth_error_app1. Qed.
+
+Lemma split_last {X} (l : list X) n x : length l = S n -> nth_error l n = Some x -> l = removelast l ++ [x].
+Proof.
+  revert n; induction l as [|h t IH]; intros n Hl Hn; [discriminate|].
+  destruct t as [|h2 t2].
+  - cbn in Hl. assert (n = 0) by lia. subst n. cbn in Hn. injection Hn as ->. reflexivity.
+  - destruct n as [|n]; [cbn in Hl; lia|]. cbn [nth_error] in Hn.
+    change (removelast (h :: h2 :: t2)) with (h :: removelast (h2 :: t2)). cbn [app]. f_equal.
+    apply (IH n); [cbn in *; lia|assumption].
+Qed.
+
+Lemma nodup_app_l {X} (a b : list X) : NoDup (a ++ b) -> NoDup a.
+Proof.
+  induction a as [|h t IH]; intros H; [constructor|]. cbn in H. inversion H as [|x xs Hn Hnd]; subst.
+  constructor; [|now apply IH]. intros Hin. apply Hn. apply in_or_app. now left.
+Qed.
+
+(* dropping the last slot of an array whose first n slots are ordered *)
+Lemma drop_last mn r x :
+  idx_ok (r ++ [x]) -> NoDup (ids_of (r ++ [x])) -> heap_upto mn (r ++ [x]) (length r) -> hwf mn r.
+Proof.
+  intros Hi Hnd Hh. repeat split.
+  - intros k e Hk. apply Hi. rewrite nth_error_app1; [assumption|]. apply nth_error_Some. congruence.
+  - unfold ids_of in *. rewrite map_app in Hnd. now apply nodup_app_l in Hnd.
+  - intros p c Hpc Hc. specialize (Hh p c Hpc Hc). unfold child in Hpc.
+    rewrite !getk_app1 in Hh by lia. exact Hh.
+Qed.
+
+Lemma push_fresh mn l e :
+  hwf mn l -> e_idx e = length l -> ih_has l (e_id e) = false ->
+  hwf mn (heap_push mn l e) /\ Permutation (conts (heap_push mn l e)) (cont e :: conts l).
+Proof.
+  intros (Hi & Hnd & Hh) Hidx Hhas. unfold heap_push, ih_push. rewrite Hhas.
+  set (l1 := l ++ [e]).
+  assert (Hlen : length l1 = S (length l)) by (unfold l1; rewrite app_length; cbn; lia).
+  rewrite Hlen. replace (S (length l) - 1) with (length l) by lia.
+  assert (Hp : Permutation (conts l1) (cont e :: conts l)).
+  { unfold l1, conts. rewrite map_app. cbn [map]. symmetry. apply Permutation_cons_append. }
+  split; [repeat split|].
+  - apply up_idx_ok. intros k x Hk. unfold l1 in Hk.
+    destruct (Nat.lt_ge_cases k (length l)) as [Hlt|Hge].
+    + rewrite nth_error_app1 in Hk by assumption. now apply Hi.
+    + assert (Hk' : k < length l1) by (apply nth_error_Some; unfold l1; congruence).
+      assert (k = length l) by lia. subst k.
+      rewrite nth_error_app2, Nat.sub_diag in Hk by lia. cbn in Hk. injection Hk as <-. exact Hidx.
+  - eapply Permutation_NoDup; [symmetry; apply perm_ids, up_perm|].
+    eapply Permutation_NoDup; [symmetry; apply (perm_ids l1 (e :: l)), Hp|].
+    change (ids_of (e :: l)) with (e_id e :: ids_of l). constructor; [now apply ih_has_false|assumption].
+  - rewrite up_length, Hlen. apply up_spec; try lia.
+    + split.
+      * intros p c Hpc Hc Hp' Hc'. unfold child in Hpc. unfold l1. rewrite !getk_app1 by lia.
+        apply Hh; [exact Hpc|lia].
+      * intros g c _ Hjc Hc. unfold child in Hjc. lia.
+    + intros c Hjc Hc. unfold child in Hjc. lia.
+  - eapply perm_trans; [apply up_perm|exact Hp].
+Qed.
+
+Lemma push_dup mn l e : hwf mn l -> ih_has l (e_id e) = true -> heap_push mn l e = l.
+Proof.
+  intros (Hi & Hnd & Hh) Hhas. unfold heap_push, ih_push. rewrite Hhas.
+  destruct l as [|h t]; [discriminate|]. apply up_noop; [cbn; lia|exact Hh].
+Qed.
+
+(* common tail of Pop and Remove: the array l2 (same contents as l, first n slots ordered, slot n holding
+   the entry to delete) loses its last slot *)
+Lemma pop_tail mn l l2 n e e' :
+  hwf mn l -> length l = S n -> length l2 = S n ->
+  Permutation (conts l2) (conts l) -> idx_ok l2 -> heap_upto mn l2 n ->
+  nth_error l2 n = Some e' -> cont e' = cont e ->
+  let r := ih_pop l2 in
+  snd r = Some e' /\ hwf mn (fst r) /\ Permutation (conts l) (cont e :: conts (fst r)).
+Proof.
+  intros (Hi & Hnd & Hh) Hl Hl2 Hp Hi2 Hh2 Hn Hc. unfold ih_pop. cbn [fst snd].
+  rewrite Hl2. replace (S n - 1) with n by lia.
+  pose proof (split_last l2 n e' Hl2 Hn) as Hs.
+  set (r := removelast l2) in *.
+  assert (Hr : length r = n).
+  { apply (f_equal (@length _)) in Hs. rewrite app_length in Hs. cbn in Hs. lia. }
+  clearbody r.
+  split; [exact Hn|]. split.
+  - apply (drop_last mn r e').
+    + now rewrite <- Hs.
+    + rewrite <- Hs. eapply Permutation_NoDup; [symmetry; apply perm_ids, Hp|exact Hnd].
+    + rewrite <- Hs, Hr. exact Hh2.
+  - symmetry. eapply perm_trans; [|exact Hp]. rewrite Hs. unfold conts. rewrite map_app. cbn [map].
+    rewrite <- Hc. apply Permutation_cons_append.
+Qed.
+
+Lemma remove_spec mn l i e :
+  hwf mn l -> nth_error l i = Some e ->
+  exists e', snd (heap_remove mn l i) = Some e' /\ cont e' = cont e /\
+             hwf mn (fst (heap_remove mn l i)) /\
+             Permutation (conts l) (cont e :: conts (fst (heap_remove mn l i))).
+Proof.
+  intros Hwf Hie. pose proof Hwf as (Hi & Hnd & Hh).
+  assert (Hil : i < length l) by (apply nth_error_Some; congruence).
+  unfold heap_remove. destruct (Nat.leb_spec (length l) i) as [Hle|_]; [lia|].
+  set (n := length l - 1). assert (Hl : length l = S n) by (unfold n; lia).
+  destruct (Nat.eqb_spec n i) as [E|E].
+  - subst i. exists e.
+    pose proof (pop_tail mn l l n e e Hwf Hl Hl (Permutation_refl _) Hi
+                  (heap_upto_weaken mn l (length l) n ltac:(lia) Hh) Hie eq_refl) as (P1 & P2 & P3).
+    auto.
+  - assert (Hin : i < n) by lia.
+    destruct (nth_error l n) as [b|] eqn:Hb; [|apply nth_error_None in Hb; lia].
+    set (l1 := swap l i n).
+    assert (Hl1 : length l1 = S n) by (unfold l1; rewrite swap_length; lia).
+    assert (Hl1n : nth_error l1 n = Some (set_idx e n)).
+    { unfold l1. rewrite (nth_error_swap l i n n e b Hie Hb). now rewrite Nat.eqb_refl. }
+    assert (Hinv : inv_except mn l1 n i).
+    { split.
+      - intros p c Hpc Hc Hp' Hc'. unfold child in Hpc. unfold l1. gsw. apply Hh; [exact Hpc|lia].
+      - intros g c Hgi Hic Hc. unfold child in Hgi, Hic. unfold l1. gsw.
+        apply Z.le_trans with (getk mn l i); apply Hh; unfold child; lia. }
+    pose proof (down_spec mn (length l) l1 i n ltac:(lia) ltac:(lia) Hinv) as Hd.
+    pose proof (down_length (length l) mn l1 i n) as Hdl.
+    pose proof (down_perm (length l) mn l1 i n) as Hdp.
+    pose proof (down_idx_ok (length l) mn l1 i n (swap_idx_ok l i n Hi)) as Hdi.
+    pose proof (down_frame (length l) mn l1 i n n (le_n _)) as Hdf.
+    destruct (down (length l) mn l1 i n) as [ld i'] eqn:Ed. cbn [fst snd] in *.
+    exists (set_idx e n).
+    assert (Hfin : forall l2, length l2 = S n -> Permutation (conts l2) (conts l) -> idx_ok l2 ->
+                     heap_upto mn l2 n -> nth_error l2 n = Some (set_idx e n) ->
+                     snd (ih_pop l2) = Some (set_idx e n) /\ cont (set_idx e n) = cont e /\
+                     hwf mn (fst (ih_pop l2)) /\ Permutation (conts l) (cont e :: conts (fst (ih_pop l2)))).
+    { intros l2 H1 H2 H3 H4 H5.
+      pose proof (pop_tail mn l l2 n e (set_idx e n) Hwf Hl H1 H2 H3 H4 H5 eq_refl) as (P1 & P2 & P3).
+      auto. }
+    destruct Hd as [(Es & El & Hc)|(Hlt & Hheap)].
+    + subst i' ld. rewrite Nat.ltb_irrefl. apply Hfin.
+      * now rewrite up_length.
+      * eapply perm_trans; [apply up_perm|]. apply swap_perm.
+      * apply up_idx_ok, swap_idx_ok, Hi.
+      * apply up_spec; try lia; assumption.
+      * rewrite up_frame by lia. exact Hl1n.
+    + destruct (Nat.ltb_spec i i') as [_|Hge]; [|lia]. apply Hfin.
+      * lia.
+      * eapply perm_trans; [exact Hdp|]. apply swap_perm.
+      * exact Hdi.
+      * exact Hheap.
+      * now rewrite Hdf.
+Qed.
+
+Lemma remove_oob mn l i : length l <= i -> heap_remove mn l i = (l, None).
+Proof. intros H. unfold heap_remove. destruct (Nat.leb_spec (length l) i); [reflexivity|lia]. Qed.
+
+Lemma pop_spec mn l e :
+  hwf mn l -> heap_first l = Some e ->
+  exists e', snd (heap_pop mn l) = Some e' /\ cont e' = cont e /\
+             hwf mn (fst (heap_pop mn l)) /\
+             Permutation (conts l) (cont e :: conts (fst (heap_pop mn l))).
+Proof.
+  intros Hwf He. pose proof Hwf as (Hi & Hnd & Hh). unfold heap_first in He.
+  assert (Hpos : 0 < length l) by (apply nth_error_Some; congruence).
+  unfold heap_pop. destruct l as [|h t] eqn:El; [cbn in Hpos; lia|]. rewrite <- El in *. clear El h t.
+  set (n := length l - 1). assert (Hl : length l = S n) by (unfold n; lia).
+  destruct (nth_error l n) as [b|] eqn:Hb; [|apply nth_error_None in Hb; lia].
+  set (l1 := swap l 0 n).
+  assert (Hl1 : length l1 = S n) by (unfold l1; rewrite swap_length; lia).
+  assert (Hl1n : nth_error l1 n = Some (set_idx e n)).
+  { unfold l1. rewrite (nth_error_swap l 0 n n e b He Hb). now rewrite Nat.eqb_refl. }
+  assert (Hinv : inv_except mn l1 n 0).
+  { split.
+    - intros p c Hpc Hc Hp' Hc'. unfold child in Hpc. unfold l1. gsw. apply Hh; [exact Hpc|lia].
+    - intros g c Hg0. unfold child in Hg0. lia. }
+  pose proof (down_spec mn (length l) l1 0 n ltac:(lia) ltac:(lia) Hinv) as Hd.
+  pose proof (down_length (length l) mn l1 0 n) as Hdl.
+  pose proof (down_perm (length l) mn l1 0 n) as Hdp.
+  pose proof (down_idx_ok (length l) mn l1 0 n (swap_idx_ok l 0 n Hi)) as Hdi.
+  pose proof (down_frame (length l) mn l1 0 n n (le_n _)) as Hdf.
+  set (l2 := fst (down (length l) mn l1 0 n)) in *.
+  assert (Hheap : heap_upto mn l2 n).
+  { destruct Hd as [(Es & Eq & Hc)|(_ & Hheap)]; [|exact Hheap].
+    rewrite Eq. apply (heap_from_parts mn l1 n 0 Hinv Hc). intros g Hg. unfold child in Hg. lia. }
+  exists (set_idx e n).
+  pose proof (pop_tail mn l l2 n e (set_idx e n) Hwf Hl ltac:(lia)
+               (perm_trans Hdp (swap_perm l 0 n)) Hdi Hheap ltac:(now rewrite Hdf) eq_refl) as (P1 & P2 & P3).
+  auto.
+Qed.
+
+Lemma pop_empty mn : heap_pop mn (@nil entry) = ([], None).
+Proof. reflexivity. Qed.
+
+(* the root is a best entry *)
+Lemma first_min mn l e x : hwf mn l -> heap_first l = Some e -> In x l -> (key mn e <= key mn x)%Z.
+Proof.
+  intros (_ & _ & Hh) He Hx. apply In_nth_error in Hx as (k & Hk).
+  assert (Hkl : k < length l) by (apply nth_error_Some; congruence).
+  pose proof (heap_root_min mn l _ Hh k Hkl) as H. unfold getk, heap_first in *. now rewrite He, Hk in H.
+Qed.
+
 End HeapProofs.
